@@ -9,4 +9,5 @@ open BHS.Props.C03
 #print axioms C03_immutable
 #print axioms C03_never_disappears
 #print axioms C03_derived_invariant
+#print axioms C03_derived_all
 #print axioms C03_sql_writes
